@@ -33,7 +33,10 @@ def main():
             "level_note": "Trusted: rustc MIR, Kani 0.68 goto translation and intrinsic models, CBMC 6.11, CaDiCaL, the "
                           "reference oracles in /verif/kani/src. Outside the claim: " + p.get("outside", "-"),
             "technique": p.get("technique", "bounded symbolic execution of the compiled crate (Kani -> CBMC -> SAT), "
-                                            "counterexamples replayed natively"),
+                                            "counterexamples replayed natively")
+            + ("; some harnesses run with function stubs (kani::stub), each listed with its justification in DESIGN.md 9.4"
+               if any(h.get("stubs") for h in p["harnesses"]) else "")
+            + ("; differential against an independent reference decoder (kani/src/refm.rs)" if pid in ("C03", "C05", "C07") else ""),
         })
     m = {
         "version": 1,
